@@ -4,26 +4,26 @@ NG_OR = ["secp256k1_nonce_function_musig", "secp256k1_ecmult_gen", "secp256k1_ge
 NG_ASSUMED = ["secp256k1_ecmult_gen", "secp256k1_ge_set_all_gej"]
 UNITS = [
     U("C13.psign_contract", ["C13"], "harness/C13/psign_contract.c", "h_psign_contract", enforce=["secp256k1_musig_partial_sign"],
-      replace=PS_OR, assumed=PS_OR, functions=["secp256k1_musig_partial_sign"], timeout=600, min_obl=300, replay=False,
+      replace=PS_OR, assumed=PS_OR, functions=["secp256k1_musig_partial_sign"], timeout=600, min_obl=1158, replay=False,
       note="DFCC-enforced contract incl. assigns frame: partial_sign writes only *secnonce and *partial_sig"),
     U("C13.history_lemma", ["C13"], "harness/C13/history.c", "h_history",
       replace=["secp256k1_musig_partial_sign", "secp256k1_musig_nonce_gen", "secp256k1_musig_nonce_gen_counter"],
-      functions=[], timeout=300, min_obl=6, replay=False,
+      functions=[], timeout=300, min_obl=291, replay=False,
       note="lemma harness over the three DFCC-enforced API contracts only (no library code executed): sign;sign, failed sign;sign, gen;sign;sign, failed gen;sign"),
     U("C13.nonce_gen_contract", ["C13"], "harness/C13/nonce_gen_contract.c", "h_nonce_gen_contract", enforce=["secp256k1_musig_nonce_gen"],
-      replace=NG_OR, assumed=NG_ASSUMED, functions=["secp256k1_musig_nonce_gen", "secp256k1_musig_nonce_gen_internal"], timeout=2400, tier="thorough", min_obl=300, replay=False, unwind=134,
+      replace=NG_OR, assumed=NG_ASSUMED, functions=["secp256k1_musig_nonce_gen", "secp256k1_musig_nonce_gen_internal"], timeout=2400, tier="thorough", min_obl=1661, replay=False, unwind=134,
       note="DFCC-enforced contract incl. assigns frame; nonce_function_musig replaced by its summary (stream proved in C12.nonce_function)"),
     U("C13.nonce_gen_counter_contract", ["C13"], "harness/C13/nonce_gen_contract.c", "h_nonce_gen_counter_contract", enforce=["secp256k1_musig_nonce_gen_counter"],
-      replace=NG_OR, assumed=NG_ASSUMED, functions=["secp256k1_musig_nonce_gen_counter", "secp256k1_musig_nonce_gen_internal"], timeout=2400, tier="thorough", min_obl=300, replay=False, unwind=134,
+      replace=NG_OR, assumed=NG_ASSUMED, functions=["secp256k1_musig_nonce_gen_counter", "secp256k1_musig_nonce_gen_internal"], timeout=2400, tier="thorough", min_obl=1679, replay=False, unwind=134,
       note="DFCC-enforced contract incl. assigns frame"),
     U("C13.nonce_gen", ["C13", "C12"], "harness/C13/nonce_gen.c", "h_nonce_gen", replace=NG_OR, assumed=NG_ASSUMED,
       functions=["secp256k1_musig_nonce_gen", "secp256k1_musig_nonce_gen_internal", "secp256k1_musig_secnonce_save", "secp256k1_musig_secnonce_invalidate",
                  "secp256k1_memczero", "secp256k1_is_zero_array", "secp256k1_pubkey_load", "secp256k1_keyagg_cache_load", "secp256k1_eckey_pubkey_serialize33", "secp256k1_ge_to_bytes"],
-      timeout=600, min_obl=300, replay=False, unwind=134,
+      timeout=600, min_obl=1841, replay=False, unwind=134,
       note="harness-enforced API contract over NULL/non-NULL x arbitrary bytes of all eight pointer arguments"),
     U("C13.nonce_gen_counter", ["C13", "C12"], "harness/C13/nonce_gen.c", "h_nonce_gen_counter", replace=NG_OR, assumed=NG_ASSUMED,
       functions=["secp256k1_musig_nonce_gen_counter", "secp256k1_musig_nonce_gen_internal", "secp256k1_write_be64", "secp256k1_keypair_sec", "secp256k1_keypair_pub",
                  "secp256k1_musig_secnonce_save", "secp256k1_musig_secnonce_invalidate"],
-      timeout=600, min_obl=300, replay=False, unwind=134,
+      timeout=600, min_obl=1854, replay=False, unwind=134,
       note="harness-enforced API contract; carries the C12 counter-wiring clause (kills the measured 'low 32 bits' mutant)"),
 ]
